@@ -3,8 +3,10 @@
 package notifier
 
 import (
+	"bytes"
 	"math"
 	"sync"
+	"text/template"
 	"time"
 
 	"go.uber.org/zap"
@@ -109,3 +111,19 @@ func (nc *Coordinator) VerifRunEvaluatorRequests(d time.Duration) {
 	}()
 	nc.sendEvaluatorRequests()
 }
+
+// VerifTemplateParseFunc returns the template parsing function that Configure installs (the one that
+// makes the helper functions available to templates). viper must hold no "notifier" section.
+func VerifTemplateParseFunc(app *protocol.ApplicationContext) func(filenames ...string) (*template.Template, error) {
+	nc := &Coordinator{App: app, Log: zap.NewNop()}
+	nc.Configure()
+	return nc.templateParseFunc
+}
+
+// VerifExecuteTemplate is executeTemplate.
+func VerifExecuteTemplate(tmpl *template.Template, extras map[string]string, status *protocol.ConsumerGroupStatus, eventID string, startTime time.Time) (*bytes.Buffer, error) {
+	return executeTemplate(tmpl, extras, status, eventID, startTime)
+}
+
+// VerifHelperFunctionMap is the function map offered to templates.
+func VerifHelperFunctionMap() template.FuncMap { return helperFunctionMap }
